@@ -881,3 +881,39 @@ def cliverdict_lines(rng, tool, nvariants, count, alpha, maxm, maxn, maxcells, s
 CLIVERDICT_CODES = {1: "malformed record", 350: "tool failed on a well-formed matrix file",
                     351: "tool printed no verdict line, or a positive and a negative one",
                     352: "the tool's verdict contradicts the definition", 353: "verdict line although the input text is malformed"}
+
+
+def cligraphout_lines(rng, count, signed):
+    """cases `signed co infmt nin bytes..` for cli:cligraphout: representation matrices of random multi(di)graphs (graphic
+    / network by construction; transposed for co = 1), some of them permuted, and a quarter random matrices"""
+    import vlib
+    out = []
+    for i in range(count):
+        co = rng.below(2)
+        if i % 4 == 3:
+            m, n = 1 + rng.below(5), 1 + rng.below(6)
+            M = vlib.rand_matrix(rng, m, n, (-1, 0, 1) if signed else (0, 1), 3 + rng.below(5), 10)
+        else:
+            nv = 1 + rng.below(7)
+            ne = rng.below(12)
+            M, _w = graph_instance(rng, nv, ne, signed)
+            if rng.below(3) == 0 and M and M[0]:
+                M = permute(rng, M)
+        if co and M and M[0]:
+            M = [list(r) for r in zip(*M)]
+        elif co and M:
+            M = []
+        if not M:
+            continue
+        fmt = rng.below(2)
+        b = [ord(c) for c in _mat_text(rng, M, fmt)]
+        out.append("%d %d %d %d %s" % (1 if signed else 0, co, fmt, len(b), " ".join(map(str, b))))
+    return out
+
+
+CLIGRAPHOUT_CODES = {1: "malformed record", 360: "tool failed on a well-formed matrix file",
+                     361: "written graph file is unreadable or its labels are not r1..rm / c1..cn once each",
+                     362: "written graph has the wrong number of row / column edges",
+                     363: "tree edges of the written graph are no spanning forest",
+                     364: "written graph does not represent the input matrix",
+                     365: "no graph written although the matrix is (co)graphic"}
